@@ -61,7 +61,7 @@ def run_one(entry, with_tests):
                 if r0.stdout.strip():
                     tests = 'BUILD-FAIL ' + r0.stdout.strip().split('\n')[0][-120:]
                 else:
-                    r = subprocess.run('ctest --test-dir %s -j8 --timeout 120 2>&1 | grep -i "failed\|passed" | head -8' % b, shell=True,
+                    r = subprocess.run('ctest --test-dir %s -j8 --timeout 120 2>&1 | grep -i "tests passed\|tests failed\|(Failed)\|\*\*\*" | head -12' % b, shell=True,
                                        stdout=subprocess.PIPE, text=True)
                     if '100% tests passed' in r.stdout:
                         tests = 'tests-pass'
